@@ -25,6 +25,9 @@ from ncclient.xml_ import parse_root, qualify, new_ele, NETCONF_NOTIFICATION_NS
 from lxml import etree
 
 
+LIB_UUID4 = rpcmod.uuid4        # the library's own id generator, captured before any history replaces the name
+
+
 class _IdGen:
     def __init__(self):
         self.n = 0
